@@ -413,9 +413,13 @@ func (w *world) build(op Op) (string, sdk.Msg) {
 		if op.Beacon {
 			b = beaconAddr
 		}
-		return lib.App("SetParams", z(op.A), lib.ZB(bigOf(op.Tax)), lib.ZB(bigOf(op.Ratio)), lib.ZB(bigOf(op.Base)), lib.B(op.Enable), lib.B(op.Beacon)),
+		fd := op.Sym // the fee denom; histories written before it became a parameter of the step name none: stake
+		if fd == (Name{}) {
+			fd = stake
+		}
+		return lib.App("SetParams", z(op.A), lib.ZB(bigOf(op.Tax)), lib.ZB(bigOf(op.Ratio)), lib.ZB(bigOf(op.Base)), fd.Coq(), lib.B(op.Enable), lib.B(op.Beacon)),
 			&v1.MsgUpdateParams{Authority: w.addrStr(op.A), Params: v1.Params{TokenTaxRate: decOf(op.Tax), MintTokenFeeRatio: decOf(op.Ratio),
-				IssueTokenBaseFee: sdk.Coin{Denom: "stake", Amount: sdkmath.NewIntFromBigInt(bigOf(op.Base))}, EnableErc20: op.Enable, Beacon: b}}
+				IssueTokenBaseFee: sdk.Coin{Denom: fd.String(), Amount: sdkmath.NewIntFromBigInt(bigOf(op.Base))}, EnableErc20: op.Enable, Beacon: b}}
 	case "evmmode":
 		return lib.App("EvmMode", z(op.Mode)), nil
 	case "upgrade":
